@@ -206,6 +206,39 @@ func runMerkle(c *run.Ctx, mc *MerkleCase) bool {
 	if again := merkle.New(append([]common.Hash{}, leaves...)).Root(); again != root {
 		viol("merkle-root-not-deterministic", fmt.Sprintf("two trees over the same list: %x and %x", root, again))
 	}
+	// determined by the list also when the caller's slice has spare capacity and is used again: the roots of the
+	// successive prefixes of one array, and a kept tree whose caller appends to the slice it was built from
+	if n > 0 {
+		arr := make([]common.Hash, n, 2*n+3)
+		copy(arr, leaves)
+		for k := 1; k <= n && !failed; k++ {
+			got := merkle.New(arr[:k]).Root()
+			wantK, _ := refTree(leaves[:k], -1)
+			c.Stat("merkle_prefix_roots_over_one_array_compared", 1)
+			if got != wantK {
+				viol("merkle-root-depends-on-callers-memory:prefixes-of-one-array", fmt.Sprintf("root of the first %d leaves of an array = %x, rule gives %x (after the roots of the shorter prefixes were computed over the same array)", k, got, wantK))
+			}
+		}
+		grown := make([]common.Hash, 0, 2*n+3)
+		grown = append(grown, leaves...)
+		kept := merkle.New(grown)
+		r1 := kept.Root()
+		kn := append([]common.Hash{}, kept.HashNodes()...)
+		grown = append(grown, common.Hash{0xaa}, common.Hash{0xbb}, common.Hash{0xcc})
+		_ = grown
+		c.Stat("merkle_kept_trees_checked_after_caller_append", 1)
+		if r2 := kept.Root(); r2 != r1 || r1 != root {
+			viol("merkle-root-depends-on-callers-memory:caller-appends", fmt.Sprintf("root of a kept tree %x, after the caller appended to its own slice %x (rule %x)", r1, r2, want))
+		} else {
+			for pos := 0; pos < n; pos++ {
+				sib, err := merkle.FindSiblingNodes(leaves[pos], kept.HashNodes())
+				if err != nil || !merkle.Verify(leaves[pos], r1, sib) {
+					viol("merkle-root-depends-on-callers-memory:caller-appends", fmt.Sprintf("inclusion proof of position %d of a kept tree does not verify after the caller appended to its own slice (err %v; %d nodes before, %d after)", pos, err, len(kn), len(kept.HashNodes())))
+					break
+				}
+			}
+		}
+	}
 	tree := merkle.New(append([]common.Hash{}, leaves...))
 	nodes := tree.HashNodes()
 	if n > 0 && len(nodes) != 2*n-1 {
